@@ -507,7 +507,134 @@ def ev_history(case):
     return {"fails": fails[:30], "n": nev, "tags": tags, "slack": slack, "sample": {"sample": spec, "bw": bw, "first": case["first"]}}
 
 
-EVALUATORS = {"multiset": ev_kde, "quantile": ev_kde, "history": ev_history}
+# ----------------------------------------------------------------------------- the estimator owns its sample (added)
+# "For any sample ... the density returned is ... the exact Gaussian kernel-density estimate" of the sample the estimator was BUILT FROM:
+# what the caller does with its own array afterwards (unit conversion in place, re-using the buffer for the next chain) is not an input of
+# pdf / cdf.  The sample is handed over as an ndarray in ascending, descending and scrambled order (and as a column, a strided view, a list).
+OWN_ORDERS = ["ascending", "descending", "scrambled"]
+OWN_FORMS = ["flat-array", "strided-view", "(n,1)-array", "list"]
+OWN_MODS = ["scale", "reverse", "fill", "shift", "scramble"]
+OWN_WHEN = ["before-any-call", "between-calls"]
+
+
+def own_new_contents(v, mod):
+    """what the caller writes into its container (from the current numbers v, 1-D)"""
+    if mod == "scale":
+        return v * 1000.0
+    if mod == "reverse":
+        return v[::-1].copy()
+    if mod == "fill":
+        return np.full(v.size, float(v[v.size // 2]) + 0.125)
+    if mod == "shift":
+        return v + (3.0 * float(v.max() - v.min()) + 1.0)
+    if mod == "scramble":
+        return v[R.stride_permutation(v.size, 7)].copy()[::-1] * 0.5
+    raise HarnessError(mod)
+
+
+def ev_owns(case):
+    import inference.pdf.kde as kde_mod
+    from inference.pdf.kde import GaussianKDE
+
+    spec, bw = case["sample"], case["bw"]
+    bwc = bw["mode"]
+    scls = sample_class(spec)
+    base0 = build_sample(spec)
+    sd0 = float(np.std(base0))
+    fails, tags, seen, nev = [], set(), set(), 0
+
+    def add(key, what, **kw):
+        if key not in seen:
+            seen.add(key)
+            fails.append(fail(key, what, sample=spec, bw=bw, **kw))
+
+    def reads(k, x):
+        out = {}
+        with lib("owns-h"):
+            out["h"] = np.asarray(float(k.h))
+        with lib("owns-pdf"):
+            out["pdf"] = np.asarray(k(x.copy()), dtype=float)
+        with lib("owns-cdf"):
+            out["cdf"] = np.asarray(k.cdf(x.copy()), dtype=float)
+        return out
+
+    for order in OWN_ORDERS:
+        srt = np.sort(base0)
+        given = {"ascending": srt, "descending": srt[::-1].copy(), "scrambled": srt[R.stride_permutation(srt.size, case.get("stride") or 7)].copy()}[order]
+        if order == "scrambled" and (np.array_equal(given, srt) or np.array_equal(given, srt[::-1])):
+            given = np.concatenate([srt[1::2], srt[0::2]])
+        smin, smax = float(srt[0]), float(srt[-1])
+
+        def container(form):
+            if form == "flat-array":
+                return given.copy()
+            if form == "strided-view":
+                big = np.zeros(2 * given.size)
+                big[::2] = given
+                return big[::2]
+            if form == "(n,1)-array":
+                return given.reshape(-1, 1).copy()
+            return [float(t) for t in given]
+
+        for form in OWN_FORMS:
+            # reference read-outs: an estimator built from an equal container that nobody touches afterwards
+            try:
+                with lib(f"construct-{bwc}-{form}", allow=() if form == "flat-array" else (ValueError, TypeError)):
+                    kf = construct(GaussianKDE, kde_mod, container(form), bw, 1.0, sd0)
+            except (ValueError, TypeError) as e:
+                tags.add(f"owns|{form}: rejected by the constructor ({type(e).__name__})")
+                continue
+            h = float(kf.h)
+            x = np.concatenate([smin - 3.0 * h + (smax - smin + 6.0 * h) * (np.arange(65) / 64.0), np.unique(srt)])
+            want = reads(kf, x)
+            nev += 4
+            # the exact kernel sum of the sample GIVEN (guards "want": the untouched estimator itself is within the conventions)
+            if float(np.abs(want["pdf"] - R.exact_pdf(srt, h, x)).max()) * h > TOL_PDF_H or float(np.abs(want["cdf"] - R.exact_cdf(srt, h, x)).max()) > TOL_CDF:
+                add(f"owns/{bwc}/untouched-estimator-not-faithful", f"{scls} given in {order} order as {form}: pdf / cdf deviate from the exact kernel sum beyond the conventions", order=order, form=form, h=h)
+            for mod in OWN_MODS:
+                for when in OWN_WHEN:
+                    arr = container(form)
+                    cont = type(arr).__name__
+                    det = dict(order=order, form=form, overwrite=mod, when=when, h=h)
+
+                    def current():
+                        return np.array(arr, dtype=float).reshape(-1)
+
+                    with lib(f"construct-{bwc}"):
+                        k = construct(GaussianKDE, kde_mod, arr, bw, 1.0, sd0)
+                    nev += 1
+                    if not np.array_equal(current(), given):
+                        add(f"owns/{bwc}/caller-sample-{cont}-modified-by-the-constructor", f"{scls} given in {order} order as {form}: after GaussianKDE(...) the caller's {cont} holds {current().tolist()[:8]}.. instead of {given.tolist()[:8]}..", **det)
+                        continue
+                    if when == "between-calls":
+                        got = reads(k, x)
+                        nev += 3
+                        if not np.array_equal(current(), given):
+                            add(f"owns/{bwc}/caller-sample-{cont}-modified-by-a-call", f"{scls} given in {order} order as {form}: pdf / cdf / h changed the caller's {cont}", **det)
+                            continue
+                        for q in ("h", "pdf", "cdf"):
+                            if got[q].shape != want[q].shape or not np.array_equal(got[q], want[q]):
+                                add(f"owns/{bwc}/{q}-differs-between-two-estimators-built-from-equal-containers", f"{scls} given in {order} order as {form}: {q} differs from that of an estimator built from an equal {cont}", **det)
+                    new = own_new_contents(given, mod)
+                    if isinstance(arr, list):
+                        arr[:] = [float(t) for t in new]
+                    else:
+                        arr[...] = new.reshape(arr.shape)
+                    got = reads(k, x)
+                    nev += 3
+                    for q in ("h", "pdf", "cdf"):
+                        if got[q].shape != want[q].shape or not np.array_equal(got[q], want[q]):
+                            d = float(np.abs(got[q] - want[q]).max()) if got[q].shape == want[q].shape else float("nan")
+                            add(f"owns/{bwc}/{q}-changes-when-the-caller-overwrites-its-sample-{cont}-afterwards",
+                                f"{scls} given in {order} order as {form}; the caller then overwrote its own {cont} in place ({mod}, {when}): {q} changed by up to {d!r} (h={h!r}) from the "
+                                f"estimate of the sample the estimator was built from", max_abs_change=d, **det)
+                    if not np.array_equal(current(), new):
+                        add(f"owns/{bwc}/caller-sample-{cont}-modified-by-a-call", f"{scls} given in {order} order as {form}: after the caller wrote new numbers ({mod}) into its {cont}, pdf / cdf / h changed them", **det)
+                    tags.add(f"owns|{scls}|{bwc}|given-{order}|{form}|overwrite={mod}|{when}")
+    return {"fails": fails[:30], "n": nev, "tags": tags, "sample": {"sample": spec, "bw": bw}}
+
+
+EVALUATORS = {"owns": ev_owns, "multiset": ev_kde, "quantile": ev_kde, "history": ev_history}
 
 
 def run(ck):
@@ -604,7 +731,29 @@ def run(ck):
                     }
                 )
     ck.run_cases("history", hcases, chunk=1)
+    # the estimator owns its sample (added): sample handed over in ascending / descending / scrambled order, then overwritten by the caller
+    osamples = [
+        {"kind": "multiset", "values": [0.0, 0.0, 1.0, 5.0]},
+        {"kind": "multiset", "values": list(alphabets[-1])},
+        {"kind": "multiset", "values": list(alphabets[-1][:3]) + [alphabets[-1][3]] * 2},
+        {"kind": "quantile", "family": "normal", "n": 50, "stride": stride},
+        {"kind": "quantile", "family": "bimodal", "n": 50, "stride": stride},
+        {"kind": "quantile", "family": "ties", "n": 50, "stride": stride},
+        {"kind": "quantile", "family": "outliers", "n": 82, "stride": stride},
+    ]
+    if not quick:
+        osamples.append({"kind": "quantile", "family": "t2", "n": 400, "stride": stride})
+    obws = [{"mode": "user", "factor": 0.1}, {"mode": "user", "factor": 1.0}, {"mode": "rule"}, {"mode": "cv"}]
+    ocases = [{"sample": sp, "bw": bw, "stride": stride} for sp in osamples for bw in obws if not (bw["mode"] == "cv" and sp.get("family") == "outliers")]
+    ck.run_cases("owns", ocases, chunk=1)
     ck.rule = (
+        "(ownership of the sample; evaluator owns, keys owns/<bandwidth mode>/<h|pdf|cdf>-changes-when-the-caller-overwrites-its-sample-<ndarray|list>-afterwards, "
+        "owns/../caller-sample-<container>-modified-by-the-constructor, ../caller-sample-<container>-modified-by-a-call, ../<q>-differs-between-two-estimators-built-from-equal-containers, "
+        "../untouched-estimator-not-faithful) three multisets and four quantile samples (n = 50, 82; thorough: + t2 n = 400) x {user 0.1 sd, user 1 sd, rule of thumb, cross-validated} x the sample handed over "
+        "in {ascending, descending, scrambled} order x as {flat ndarray, strided view, (n,1) ndarray, list} (a non-flat form may be refused with ValueError / TypeError) x the caller overwriting that very "
+        "object IN PLACE with {x1000, reversed, constant fill, shifted beyond the range, scrambled and halved} x {before any call, between two rounds of calls}: h, pdf and cdf on a 65-point grid reaching 3h beyond "
+        "the data plus every sample value must afterwards equal bit for bit those of an estimator built from an equal container nobody touched (itself within the conventions of the exact kernel sum of "
+        "the sample given); the caller's container must hold exactly what the caller put there after the constructor and after every call; distinct = (sample class, bandwidth mode, order, form, overwrite, when).  "
         "(call histories) on ONE estimator and ONE evaluation-array object: every sequence block (modification, block)^d with block in "
         "{pdf, cdf, pdf+cdf, cdf+pdf}, modification in {shift, scale, reverse, sort, refill, fill with a constant, free and re-allocate, none} "
         "applied IN PLACE to the caller's array, d = 1 (quick) / 2 (thorough), array lengths 33 and 1, for two multisets and three quantile samples "
@@ -617,6 +766,8 @@ def run(ck):
         "subdivision points of the data range (+-1 ulp) down to below the bandwidth, all sample values, a grid of step <= h/16 reaching 10h "
         "beyond the data, +-30h and +-1000h. A case is distinct by (sample class, bandwidth mode, map, number of look-up regions)."
     )
+    ck.assume("ownership: the property speaks of the estimate of the sample the estimator was constructed from, so in-place changes the caller makes to its own array / list after construction are not "
+              "inputs of pdf / cdf / h; 'identical read-outs' is bit for bit (same code, same numbers)")
     ck.assume("samples are the listed deterministic ones (n <= 5000); bandwidths between 0.1 and 10 sample standard deviations")
     ck.assume("sub-sampling inside the cross-validation is driven by scripted sequences installed as inference.pdf.kde.random; invariance to the sample order is not asserted for that mode (the sub-sample is positional)")
     ck.assume("conventions for the approximate clauses: |pdf-exact| <= 1e-3/h, |cdf-exact| <= 5e-4, |cdf difference - integral of pdf| <= 1e-3")
